@@ -21,6 +21,7 @@ import (
 	"io"
 	"os"
 	"path"
+	"path/filepath"
 	"runtime"
 	"sort"
 	"strings"
@@ -530,7 +531,7 @@ func (this *BlockCompressor) Compress() (int, uint64) {
 			if len(oName) == 0 {
 				oName = iName + ".knz"
 			} else if inputIsDir == true && specialOutput == false {
-				oName = formattedOutName + iName[len(formattedInName):] + ".knz"
+				oName = formattedOutName + relativeToInputDir(formattedInName, iName) + ".knz"
 			}
 		}
 
@@ -562,7 +563,7 @@ func (this *BlockCompressor) Compress() (int, uint64) {
 			if len(oName) == 0 {
 				oName = iName + ".knz"
 			} else if inputIsDir == true && specialOutput == false {
-				oName = formattedOutName + iName[len(formattedInName):] + ".knz"
+				oName = formattedOutName + relativeToInputDir(formattedInName, iName) + ".knz"
 			}
 
 			taskCtx := make(map[string]any)
@@ -957,4 +958,16 @@ func (this *fileCompressTask) call() (int, uint64, uint64, error) {
 	}
 
 	return 0, read, cos.GetWritten(), nil
+}
+
+// relativeToInputDir returns the path of a file found under the input
+// directory relative to that directory, whatever the spelling of the
+// directory on the command line ("./T", "T//", "T/../T", "."): the names
+// reported by the directory walk are cleaned, the option value is not.
+func relativeToInputDir(inputDir, name string) string {
+	if rel, err := filepath.Rel(inputDir, name); err == nil {
+		return rel
+	}
+
+	return filepath.Base(name)
 }
